@@ -84,7 +84,7 @@ SUITES.update({
                      describe="random operation sequences (TLC -simulate) replayed on one live collection, result and content compared after every call"),
 })
 
-TYPES_INVS = ["C13_Finish", "EmitTypeStr", "C08_NameRule", "C08_Judged", "C10_Rebuild", "C01_RoundTrip", "C15_Lookup", "C15_Names", "C18_Split",
+TYPES_INVS = ["C13_Finish", "EmitTypeStr", "C08_NearTypes", "C08_NameRule", "C08_Judged", "C10_Rebuild", "C01_RoundTrip", "C15_Lookup", "C15_Names", "C18_Split",
               "C18_Inverse", "EmitNames", "EmitLookup", "EmitCombined"]
 
 
@@ -188,7 +188,7 @@ PROPS = {
     "C05": dict(suites=PARSE_ALL + ["CHECKSUM"], drivers=["corpus", "garbage", "lengths"]),
     "C06": dict(suites=PARSE_ALL + ["QUAL", "QUAL-SIM", "CHECKSUM", "BUILDER-G", "BUILDER-T", "BUILDER-SIM-G", "FORMAT-1", "TYPES-LOOKUP", "TYPES-COMB", "TYPES-NAMES", "TYPES-STR", "SHAPES", "SYSTEM-T"], drivers=["garbage", "corpus", "scalars", "lengths", "qual-ops", "checksum-ops", "builder-ops", "type-strings", "combined", "big"]),
     "C07": dict(suites=["PARSE-NS", "PARSE-SUB", "PARSE-PATH", "PARSE-SEP", "SPELL", "FAULT"], drivers=["garbage", "corpus", "lengths"]),
-    "C08": dict(suites=["TYPES-NAMES", "PARSE-TYPED", "BUILDER-T", "TYPES-COMB"], drivers=["scalars"]),
+    "C08": dict(suites=["TYPES-NAMES", "TYPES-LOOKUP", "PARSE-TYPED", "BUILDER-T", "TYPES-COMB"], drivers=["scalars", "corpus"]),
     "C09": dict(suites=BUILD_ALL + ["FORMAT-1", "FORMAT-2", "SYSTEM-G", "SYSTEM-T", "TYPES-NAMES", "TYPES-STR"], drivers=["builder-ops", "lengths"]),
     "C10": dict(suites=PARSE_ALL + ["BUILDER-G", "BUILDER-T", "FORMAT-1", "TYPES-NAMES", "TYPES-STR", "CHECKSUM", "SYSTEM-G", "SYSTEM-T"], drivers=["scalars", "corpus", "lengths"]),
     "C11": dict(suites=["QUAL", "QUAL-SIM"], drivers=["qual-ops"]),
